@@ -200,10 +200,10 @@ class RefDevice:
         d = self.hs_script.pop(0) if self.hs_script else {}
         lat = d.get("lat", MIN_LAT)
         tail = self._take_tail(conn)
-        if d.get("drop"):
+        if d.get("drop") or (not ok and getattr(self, "silent_on_bad_token", False)):
             if tail:
                 conn.send(tail, lat=lat)
-            self._fire("silent_hs")
+            self._fire("silent_hs" if d.get("drop") else "unknown_token_ignored_silently")
             return
         if d.get("flood") is not None:
             k = self.key if self.key is not None else bytes(32)
